@@ -18,6 +18,8 @@ def instances(tier):
     out = []
     for p in POTS:
         out.append(dict(name='def[%s]' % p, fn='pot_def', args=dict(pot=p)))
+    for p_ in POTS:
+        out.append(dict(name='elementwise[%s]' % p_, fn='pot_permuted', args=dict(pot=p_), max_paths=256))
     out.append(dict(name='cut-continuity', fn='lj_continuity', args={}))
     out.append(dict(name='wca-sign', fn='wca_sign', args={}, query_timeout_ms=120000))
     out.append(dict(name='sigma-default', fn='sigma_default', args={}))
@@ -111,6 +113,23 @@ def pot_def(E, pot):
     for i in range(L):
         E.claim_eq('repeat[%d]' % i, out2[i], first[i])
         E.claim_eq('first-result-not-overwritten[%d]' % i, out[i], first[i])
+
+
+def pot_permuted(E, pot):
+    """elementwise: the value at a distance does not depend on where that distance sits in the array (descending / shuffled r)"""
+    L = 3
+    r = inc_grid(E, 'r', L)
+    U, par = make(E, pot)
+    ref = U.calculate(r)
+    ref = [ref[i] for i in range(L)]
+    E.reachable('perm')
+    for name, perm in (('reversed', [2, 1, 0]), ('shuffled', [1, 2, 0])):
+        rp = _np.empty(L, dtype=r.dtype)
+        for j, i in enumerate(perm):
+            rp[j] = r[i]
+        got = U.calculate(rp)
+        for j, i in enumerate(perm):
+            E.claim_eq('%s[%d]' % (name, j), got[j], ref[i])
 
 
 def lj_continuity(E):
